@@ -75,6 +75,18 @@ CHECKS = {
             "Little-endian host only; values are a bit-position-complete alphabet rather than all 2^64; the known ninth-byte "
             "defect is attributed by the closed-form predicate offset%8+width>64.",
             "6/C03"),
+    "C07": ("model_checking",
+            "exhaustive enumeration of the real work-list schedules (every valid topological re-ordering of <=6 top-level "
+            "declarations per graph, every repository header as written), each executed on the implementation with hooks H1/H2: "
+            "post-convergence rule re-application + Kleene reference from bottom, consult probes in lookup_*; inventories compared "
+            "across orders",
+            "Every schedule the nine analyses can actually take for the declaration graphs (one per valid declaration order) is "
+            "executed; after the production loop every rule is re-applied until nothing changes and a round-robin iteration from "
+            "bottom is computed on separate instances; a fact that is unstable or not least AND consulted by a later analysis or by "
+            "code generation is a violation; the emitted items must be the same multiset for every order of a graph.",
+            "Arbitrary work-list pop orders are deliberately not explored (production never takes them; see DESIGN.md); graphs have "
+            "<= 6 declarations; facts that are unstable but never consulted are only counted.",
+            "6/C07"),
 }
 
 NOT_YET = "check not built yet in this round (see DESIGN.md section 10a for the plan)"
